@@ -7,6 +7,8 @@ import (
 	"os"
 	"runtime"
 	"time"
+
+	"github.com/rqlite/rqlite/v10/internal/vhook"
 )
 
 const (
@@ -127,6 +129,8 @@ func WriteToFile(p *Plan, path string) error {
 	if err := syncFileMaybe(tmpPath); err != nil {
 		return err
 	}
+	vhook.Trace(path, "plan.write.tmp")
+	vhook.Crash("plan.write.tmp")
 	return os.Rename(tmpPath, path)
 }
 
@@ -251,6 +255,7 @@ type Inspector interface {
 func (p *Plan) Execute(v Visitor) error {
 	for _, op := range p.Ops {
 		var err error
+		vhook.Crash("plan.op.pre")
 		switch op.Type {
 		case OpRename:
 			err = v.Rename(op.Src, op.Dst)
@@ -273,9 +278,11 @@ func (p *Plan) Execute(v Visitor) error {
 		default:
 			err = fmt.Errorf("unknown operation type: %s", op.Type)
 		}
+		vhook.Trace(p, "plan.op", "type", string(op.Type), "src", op.Src, "dst", op.Dst, "err", err)
 		if err != nil {
 			return err
 		}
+		vhook.Crash("plan.op.post")
 	}
 	return nil
 }
